@@ -396,3 +396,8 @@ impl HetTable {
         Some(file_index)
     }
 }
+
+// verification hook (guard: cfg(kani), set only by `cargo kani`): harness module supplied by /verif
+#[cfg(kani)]
+#[path = "verif_kani_het.rs"]
+mod verif_kani;
